@@ -28,6 +28,8 @@ SCENARIOS = [
     ('two-ns-loss-cancelled', True, [], ['loss', 'cancel-loss']),
 ]
 OUTCOMES = ['accept', 'false']
+INDEPENDENT = {'manager.pending_disconnect', 'manager.callbacks',
+               'server.environ', 'server._binary_packet'}
 
 
 def scenario_for(sc, always_connect, outcome, suspend_sends,
@@ -154,13 +156,20 @@ def judge(sc, always_connect, outcome, out):
     # closing the transport (disconnect handlers still running).  The key
     # names the cause, not the table the ghost shows up in (a refactoring
     # may mirror or rename tables)
-    if out['connect_while_closing'] and (out['diff'] or out['namespaces']):
-        v.append(('C11/sched-not-fresh/connect-while-transport-closing',
-                  f'{what}: the only client is gone but '
-                  f'{dict(sorted(out["diff"].items()))!r}; get_namespaces() '
-                  f'= {out["namespaces"]!r}'))
-        return v
-    for k, val in sorted(out['diff'].items()):
+    diff = dict(out['diff'])
+    if out['connect_while_closing']:
+        # the ghost registration of the known finding; marks, callbacks,
+        # environ and partial packets are not part of it and keep their own
+        # keys
+        ghost = {k: x for k, x in diff.items() if k not in INDEPENDENT}
+        if ghost or out['namespaces']:
+            v.append(('C11/sched-not-fresh/connect-while-transport-closing',
+                      f'{what}: the only client is gone but '
+                      f'{dict(sorted(ghost.items()))!r}; get_namespaces() '
+                      f'= {out["namespaces"]!r}'))
+        diff = {k: x for k, x in diff.items() if k in INDEPENDENT}
+        out = dict(out, namespaces=[])
+    for k, val in sorted(diff.items()):
         v.append(('C11/sched-not-fresh/' + k.split('.')[1],
                   f'{what}: the only client is gone but {k} = {val!r}'))
     if out['namespaces']:
